@@ -307,3 +307,144 @@ class CliTask(CoreTask):
 
 def cli_tasks(root, timeout_ms=10000):
     return [CliTask(root, "validate_instance", timeout_ms), CliTask(root, "run", timeout_ms)]
+
+
+# ---- _Outputter (the contract assumed by cli.run above, proved of the real methods) ------------------
+class AbsStream:
+    def __init__(self, name):
+        self.name = name
+
+
+class AbsFormatter:
+    pass
+
+
+class FileV:
+    def __init__(self, path):
+        self.path = path
+
+
+def outputter_task_run(self, res):
+    """_Outputter.load(path): FS(path)=json(v) -> returns v; file missing (ENOENT) -> exactly one
+    filenotfound diagnostic on stderr, then _CannotLoadFile; not JSON -> exactly one parsing diagnostic
+    on stderr, then _CannotLoadFile; any other OSError propagates.  validation_error / parsing_error /
+    filenotfound_error write exactly one formatter result to stderr, validation_success to stdout."""
+    repo = extract.Repo(self.root)
+    res["function"] = "cli:_Outputter.{load,validation_error,validation_success,parsing_error,filenotfound_error}"
+    hashes = ""
+    fs_missing = z3.Function("fs_missing", V, smt.B)
+    for meth in ("load", "validation_error", "validation_success", "parsing_error", "filenotfound_error"):
+        ctx = Ctx(repo, contracts={}, config={})
+        this = ObjVal("_Outputter", ctx.new_oid())
+        path = SV(z3.Const("path", V))
+
+        def getattr_hook(I, st, obj, attr):
+            if isinstance(obj, ObjVal) and obj.cls == "_Outputter":
+                if attr == "_stderr":
+                    return [(st, AbsStream("stderr"))]
+                if attr == "_stdout":
+                    return [(st, AbsStream("stdout"))]
+                if attr == "_formatter":
+                    return [(st, AbsFormatter())]
+                return [(st, BoundMethod(obj, attr))]
+            if isinstance(obj, (AbsStream, AbsFormatter)):
+                return [(st, BoundMethod(obj, attr))]
+            if isinstance(obj, ModuleRef) and obj.name == "errno" and attr == "ENOENT":
+                return [(st, lift(2))]
+            return None
+
+        def method_hook(I, st, obj, name, a, k, node):
+            if isinstance(obj, AbsFormatter):
+                return [(st, Opaque("formatted:" + name, list(k.values())))]
+            if isinstance(obj, AbsStream) and name == "write":
+                s = st.fork()
+                s.ghost["stream_writes"] = s.ghost.get("stream_writes", ()) + ((obj.name, a[0]),)
+                return [(s, lift(None))]
+            return None
+
+        def builtin_hook(I, st, name, a, k, node):
+            if name == "open":
+                p = a[0]
+                outs = []
+                from pyvc.interp import assume
+                ok = assume(I.ctx, st.fork(), z3.Not(fs_missing(p.t)))
+                if ok is not None:
+                    outs.append((ok, FileV(p)))
+                    other = ok.fork()
+                    outs.append((other, Raised(ExcVal("OSError", {"errno": SV(z3.Const("other_errno", V))}, origin="open: other OS error"))))
+                miss = assume(I.ctx, st.fork(), fs_missing(p.t))
+                if miss is not None:
+                    outs.append((miss, Raised(ExcVal("OSError", {"errno": lift(2)}, origin="open: ENOENT"))))
+                return outs
+            if name == "json.load":
+                f = a[0]
+                from pyvc.interp import assume
+                outs = []
+                x = assume(I.ctx, st.fork(), fs_json(f.path.t))
+                if x is not None:
+                    outs.append((x, SV(fs_value(f.path.t))))
+                y = assume(I.ctx, st.fork(), z3.Not(fs_json(f.path.t)))
+                if y is not None:
+                    outs.append((y, Raised(ExcVal("JSONDecodeError", {}, origin="json.load"))))
+                return outs
+            if name == "sys.exc_info":
+                return [(st, Opaque("exc_info"))]
+            return None
+
+        def with_hook(I, node, st):
+            outs = []
+            for s, v in I.eval(node.items[0].context_expr, st):
+                for s2, ctl in I.exec_block(node.body, s):
+                    s3 = s2.fork()
+                    s3.ghost["closed"] = s3.ghost.get("closed", 0) + 1
+                    outs.append((s3, ctl))
+            return outs
+        ctx.config.update(getattr_hook=getattr_hook, method_hook=method_hook, builtin_hook=builtin_hook, with_hook=with_hook)
+        I = Interp(ctx)
+        unit = repo.unit("cli:_Outputter.%s" % meth)
+        hashes += unit.source_hash()
+        st = State()
+        st.unit = unit
+        st.pc.extend([kind(path.t) == K_STR, kind(z3.Const("other_errno", V)) == smt.K_INT, smt.ival(z3.Const("other_errno", V)) != 2])
+        if meth == "load":
+            outs = I.run_unit(unit, st, [this, path], {})
+        else:
+            kw = {"instance_path": path, "error": Opaque("error")} if meth.startswith("validation") else {"path": path, "exc_info": Opaque("exc_info")}
+            if meth == "validation_success":
+                kw = {"instance_path": path}
+            outs = I.run_unit(unit, st, [this], kw)
+        res["paths"] += len(outs)
+        obls = list(ctx.obligations)
+        n = 0
+        for s, ctl in outs:
+            n += 1
+            w = s.ghost.get("stream_writes", ())
+            nm = "%s/F/%s#%d" % (self.name, meth, n)
+            if meth != "load":
+                stream = "stdout" if meth == "validation_success" else "stderr"
+                ok = ctl[0] == "return" and len(w) == 1 and w[0][0] == stream and isinstance(w[0][1], Opaque) and w[0][1].tag == "formatted:" + meth
+                obls.append(core.Obligation(nm, "F", s.pc, z3.BoolVal(bool(ok)), note="%s writes exactly the formatter's %s text to %s" % (meth, meth, stream)))
+                continue
+            if ctl[0] == "return":
+                r = ctl[1]
+                obls.append(core.Obligation(nm, "F", s.pc, z3.And(z3.Not(fs_missing(path.t)), fs_json(path.t), r.t == fs_value(path.t), z3.BoolVal(len(w) == 0 and s.ghost.get("closed", 0) == 1))
+                                            if isinstance(r, SV) else z3.BoolVal(False), note="returns the parsed value, writes nothing, closes the file"))
+            elif ctl[1].cls == "_CannotLoadFile":
+                one = len(w) == 1 and w[0][0] == "stderr"
+                tag = w[0][1].tag if one and isinstance(w[0][1], Opaque) else ""
+                goal = z3.And(z3.BoolVal(bool(one)), z3.If(fs_missing(path.t), z3.BoolVal(tag == "formatted:filenotfound_error"),
+                                                           z3.And(z3.Not(fs_json(path.t)), z3.BoolVal(tag == "formatted:parsing_error" and s.ghost.get("closed", 0) == 1))))
+                obls.append(core.Obligation(nm, "F", s.pc, goal, note="_CannotLoadFile after exactly one diagnostic on stderr: file-not-found for a missing file, parsing error for unparsable content"))
+            else:
+                obls.append(core.Obligation(nm, "F", s.pc, z3.And(z3.BoolVal(ctl[1].cls == "OSError" and len(w) == 0), z3.Not(fs_missing(path.t))),
+                                            note="only an OS error other than ENOENT propagates (no diagnostic)"))
+        self.finish(res, ctx, obls)
+    res["source_hash"] = hashes
+
+
+CliTask._run_outputter = outputter_task_run
+_old_cli_tasks = cli_tasks
+
+
+def cli_tasks(root, timeout_ms=10000):      # noqa: F811
+    return _old_cli_tasks(root, timeout_ms) + [CliTask(root, "outputter", timeout_ms)]
